@@ -59,6 +59,7 @@ import FwdVerif.Lemmas.C12Handler
 import FwdVerif.Lemmas.C12Accept
 import FwdVerif.Lemmas.C12Dial
 import FwdVerif.Lemmas.C12Cert
+import FwdVerif.Model.C12Gen
 
 namespace FwdVerif
 namespace C12
@@ -1959,6 +1960,78 @@ theorem c12_cert_lock_kept_on_error_witness :
   have h : certGenV .keepLockOnError {} hostile = ({ locked := true, cache := [] }, .refused) := by
     simp [certGenV, hr]
   simp only [certRunV, h, certRun_locked_blocks]
+
+/-! ### Tie to the source: the handler list of `errorResponse`
+
+`Model/C12Gen.lean` is regenerated on every run by `harness/srcgen` from `http_proxy_errors.go`: the
+handler list of `errorResponse` in source order and, per handler, the constant status codes and the
+labels it can assign (plus the `if code == 0` fallback).  The theorems say the model's `handlers` are
+that list in that order, and that every verdict a model handler can give for ANY error shape uses a
+code and a label its source function can assign (handlers whose code is computed —
+`martianErr.Status`, the status-text loop — are recognised as such).  Reordering the list, changing
+a handler's status or label, or adding/removing a handler in /repo changes the generated module and
+these obligations no longer check; the correspondence run then looks for an error that shows it. -/
+
+/-- the model's handlers under the names they have in `http_proxy_errors.go` -/
+def handlerTable : List (String × Handler) :=
+  [("handleWindowsNetError", handleWindowsNetError), ("handleNetError", handleNetError),
+   ("handleTLSRecordHeader", handleTLSRecordHeader), ("handleTLSCertificateError", handleTLSCertificateError),
+   ("handleTLSECHRejectionError", handleTLSECHRejectionError), ("handleTLSAlertError", handleTLSAlertError),
+   ("handleMartianErrorStatus", handleMartianErrorStatus), ("handleAuthenticationError", handleAuthenticationError),
+   ("handleDenyError", handleDenyError), ("handleProhibitedError", handleProhibitedError),
+   ("handleContextCancelationError", handleContextCancelationError), ("handleStatusText", handleStatusText),
+   ("handleTimeoutError", handleTimeoutError), ("handleEOFError", handleEOFError)]
+
+def factOf (n : String) : C12Gen.HandlerFact :=
+  (C12Gen.handlerFacts.find? (·.name == n)).getD ⟨n, [], [], []⟩
+
+/-- a label the source can assign: one of the literals, or a concatenation starting with a literal -/
+def labelOk (ls : List String) (l : String) : Bool :=
+  ls.any fun p => if p.endsWith "*" then (p.dropEnd 1).copy.isPrefixOf l else p == l
+
+theorem c12_generated_handler_order_is_model :
+    handlerTable.map (·.1) = C12Gen.handlerFacts.map (·.name) ∧ handlerTable.map (·.2) = handlers :=
+  ⟨by decide, rfl⟩
+
+theorem c12_generated_fallback_is_model (https : Bool) (e : ErrShape)
+    (h : (firstVerdict handlers https e).1 = 0) :
+    classifyShape https e = (C12Gen.fallbackCode, C12Gen.fallbackLabel) := by
+  simp [classifyShape, classifyWith, h, C12Gen.fallbackCode, C12Gen.fallbackLabel]
+
+theorem c12_generated_codes_cover_model :
+    ∀ p ∈ handlerTable, ∀ (https : Bool) (e : ErrShape),
+      (p.2 https e).1 = 0 ∨ (p.2 https e).1 ∈ (factOf p.1).codes ∨ (factOf p.1).dynCodes ≠ [] := by
+  intro p hp https e
+  simp only [handlerTable, List.mem_cons, List.mem_nil_iff, or_false] at hp
+  rcases hp with rfl | rfl | rfl | rfl | rfl | rfl | rfl | rfl | rfl | rfl | rfl | rfl | rfl | rfl
+  all_goals
+    simp only [handleWindowsNetError, handleNetError, handleTLSRecordHeader, handleTLSCertificateError,
+      handleTLSECHRejectionError, handleTLSAlertError, handleMartianErrorStatus, handleAuthenticationError,
+      handleDenyError, handleProhibitedError, handleContextCancelationError, handleStatusText,
+      handleTimeoutError, handleEOFError, pass]
+    first
+      | trivial
+      | (right; right; decide)
+      | (split <;> first | (left; rfl) | (right; left; dsimp only; decide))
+
+/-- every label the model's handlers give is one the source can assign -/
+theorem c12_generated_labels_cover_model :
+    ∀ p ∈ handlerTable, ∀ (https : Bool) (e : ErrShape),
+      (p.2 https e).1 = 0 ∨ labelOk (factOf p.1).labels (p.2 https e).2 = true := by
+  intro p hp https e
+  simp only [handlerTable, List.mem_cons, List.mem_nil_iff, or_false] at hp
+  rcases hp with rfl | rfl | rfl | rfl | rfl | rfl | rfl | rfl | rfl | rfl | rfl | rfl | rfl | rfl
+  all_goals
+    simp only [handleWindowsNetError, handleNetError, handleTLSRecordHeader, handleTLSCertificateError,
+      handleTLSECHRejectionError, handleTLSAlertError, handleMartianErrorStatus, handleAuthenticationError,
+      handleDenyError, handleProhibitedError, handleContextCancelationError, handleStatusText,
+      handleTimeoutError, handleEOFError, pass, skipMetricsLabel]
+    first
+      | trivial
+      | ((repeat' split) <;> first
+            | (left; rfl)
+            | (right; (try dsimp only); with_unfolding_all decide)
+            | (right; rename_i op _; cases op <;> with_unfolding_all decide))
 
 end C12
 end FwdVerif
